@@ -244,6 +244,17 @@ def body_decision(ctx, cls, db, stat, N, default_div):
                     calls = calls[nf:]
                 drifted = False
                 ctx.prove(len(calls) == nf, "one-distance-per-feature")
+                if len(calls) == nf and not default_div:
+                    # the divergence is handed (reference histogram, batch histogram) of the same feature, in that order, on
+                    # the bin edges spanning both (a user-supplied divergence need not be symmetric)
+                    ra, xa = np.array(ref_rows, dtype=float), np.asarray(X, dtype=float)
+                    nb = int(np.floor(np.sqrt(len(ref_rows))))
+                    ok = True
+                    for f, c in enumerate(calls):
+                        lo, hi = min(ra[:, f].min(), xa[:, f].min()), max(ra[:, f].max(), xa[:, f].max())
+                        ok = ok and np.array_equal(np.asarray(c[0]), np.histogram(ra[:, f], bins=nb, range=(lo, hi))[0]) \
+                            and np.array_equal(np.asarray(c[1]), np.histogram(xa[:, f], bins=nb, range=(lo, hi))[0])
+                    ctx.prove(bool(ok), "divergence-gets-reference-then-batch-histogram-on-common-edges")
                 feat = [c[2] for c in calls]
                 dist = sum(feat, 0) / nf
                 since += 1
